@@ -1,3 +1,94 @@
 package main
 
-func extraCommand(cmd string, args []string) bool { return false }
+import (
+	"encoding/json"
+	"fmt"
+	"os"
+	"os/exec"
+	"regexp"
+	"strconv"
+	"strings"
+	"syscall"
+	"time"
+)
+
+// extraCommand: "deathcase <property> <desc>" re-executes, in THIS process, the case that killed or
+// hung a worker (used by the replayer of worker deaths through a child process with the same limits).
+func extraCommand(cmd string, args []string) bool {
+	if cmd != "deathcase" || len(args) < 2 {
+		return false
+	}
+	lim := uint64(envInt("VERIF_WORKER_AS_GB", 8)) << 30
+	syscall.Setrlimit(syscall.RLIMIT_AS, &syscall.Rlimit{Cur: lim, Max: lim})
+	runDeathCase(args[0], args[1])
+	return true
+}
+
+var famRe = regexp.MustCompile(`^(?:(.*) \| )?family (.*) n=(\d+)$`)
+
+func runDeathCase(prop, desc string) {
+	if i := strings.LastIndex(desc, " [died"); i > 0 {
+		desc = desc[:i]
+	}
+	if i := strings.LastIndex(desc, " [hung"); i > 0 {
+		desc = desc[:i]
+	}
+	if m := famRe.FindStringSubmatch(desc); m != nil {
+		n, _ := strconv.Atoi(m[3])
+		if prop == "C14" {
+			ctxs, _ := c14CtxMap(5)
+			expr, allowed, ok := c14Input(m[2], n, ctxs)
+			if ok {
+				c14Measure(m[1], expr, allowed)
+			}
+			return
+		}
+		expr, list := scaleInput(m[2], n)
+		Val(append([]string{expr}, list...))
+		Ext(expr)
+		Sat(expr, list)
+		return
+	}
+	Val([]string{desc})
+	Ext(desc)
+	Sat(desc, []string{"MIT"})
+	Sat("MIT", []string{desc})
+}
+
+func init() {
+	kinds["death"] = func(raw json.RawMessage) string {
+		var cs struct {
+			Desc string `json:"desc"`
+			Prop string `json:"property"`
+		}
+		if err := json.Unmarshal(raw, &cs); err != nil {
+			return "bad case"
+		}
+		prop := cs.Prop
+		if prop == "" {
+			prop = "C03"
+			if strings.Contains(cs.Desc, " | family ") {
+				prop = "C14"
+			}
+		}
+		cmd := exec.Command(os.Args[0], "deathcase", prop, cs.Desc)
+		cmd.Env = append(os.Environ(), "GOMAXPROCS=1", "GOTRACEBACK=single")
+		done := make(chan error, 1)
+		var out strings.Builder
+		cmd.Stderr = &out
+		if err := cmd.Start(); err != nil {
+			return "cannot start child: " + err.Error()
+		}
+		go func() { done <- cmd.Wait() }()
+		select {
+		case err := <-done:
+			if err != nil {
+				return fmt.Sprintf("the case still kills the process: %v: %s", err, first(out.String(), 200))
+			}
+			return ""
+		case <-time.After(time.Duration(envInt("VERIF_WATCHDOG_S", 150)) * time.Second):
+			cmd.Process.Kill()
+			return "the case still hangs (killed after the watchdog period)"
+		}
+	}
+}
